@@ -67,6 +67,7 @@ BIN = {
     "Not": pt.Not, "BitwiseNot": pt.BitwiseNot, "Len": pt.Len, "Itob": pt.Itob, "Btoi": pt.Btoi, "Sqrt": pt.Sqrt,
     "BitLen": pt.BitLen, "Sha256": pt.Sha256, "Sha512_256": pt.Sha512_256, "BytesNot": pt.BytesNot,
     "BytesSqrt": pt.BytesSqrt, "BytesZero": pt.BytesZero,
+    "Divw": pt.Divw, "Replace": pt.Replace, "Sha3_256": pt.Sha3_256,
     "Substring": pt.Substring, "Extract": pt.Extract, "Suffix": pt.Suffix, "SetBit": pt.SetBit, "SetByte": pt.SetByte,
     "AndN": pt.And, "OrN": pt.Or, "AddN": pt.Add, "MulN": pt.Mul, "ConcatN": pt.Concat,
 }
